@@ -114,6 +114,10 @@ def ele_faults(seg, e, sub_of=None):
                 break
         if v is not None and dt in ('ID', 'AN'):
             out.append(('outside-code-list', v, '7', is_qualifier(seg, e)))
+        # another spelling of a listed code is not the listed code (codes are compared as written)
+        low = [c.lower() for c in sorted(e.codes) if c.lower() != c and c.lower() not in e.codes and c.lower() not in rivals]
+        if low and dt in ('ID', 'AN') and not is_qualifier(seg, e):
+            out.append(('outside-code-list-case', low[0], '7', False))
     if e.ext and not e.codes:
         members = set(G.extcodes().get(e.ext, []))
         for cand in ('Z', 'Q', 'X9', 'ZZ', 'QQ', 'ZZZ', 'QQQ', 'ZZZZ', 'ZZZZZ', 'ZZZZZZ', 'ZZZZZZZ', 'ZZZZZZZZZ'):
@@ -721,7 +725,7 @@ def run(R):
             shards.append((e, ch))
     R.pmap(work, shards)
     R.bounds = {'maps': len(ents), 'injections': total,
-                'catalogue': ['too-long', 'too-long-punctuated (AN)', 'too-long-signed (R)', 'too-short', 'wrong-class', 'wrong-class-printable (^ in a 00401 document)', 'impossible-date (month)', 'impossible-date-day', 'impossible-time (hour)', 'impossible-time-minute', 'impossible-time-second', 'outside-code-list', 'outside-external-set (also with all other external sets excluded by option)', 'missing-required',
+                'catalogue': ['too-long', 'too-long-punctuated (AN)', 'too-long-signed (R)', 'too-short', 'wrong-class', 'wrong-class-printable (^ in a 00401 document)', 'impossible-date (month)', 'impossible-date-day', 'impossible-time (hour)', 'impossible-time-minute', 'impossible-time-second', 'outside-code-list', 'outside-code-list-case (lower-case spelling of a listed code)', 'outside-external-set (also with all other external sets excluded by option)', 'missing-required',
                               'not-used-filled', 'too-many-elements', 'syntax:<note>', 'unknown-id', 'unknown-id-malformed', 'missing-required-segment', 'beyond-max-use', 'beyond-repeat-interleaved (A, B x max, A, B for same-position sibling loops)',
                               'not-used-segment', 'beyond-repeat (loops)', 'missing-required-loop'],
                 'targets': 'every node x every applicable kind' if R.thorough else 'one node per definition signature per map x every applicable kind'}
